@@ -249,6 +249,35 @@ pub fn cmd(args: &Args) {
             }
         }
         }
+        if job % 4 == 0 && !stop {
+            // natural failures of the directory listing (no injection): the WAL directory is not
+            // there (unmounted volume, moved directory), or the path is a regular file; open must
+            // report an I/O error and must not create anything in its place
+            for what in ["missing", "regular-file"] {
+                let holder = TempDir::new();
+                let path = holder.path.join("wal-dir");
+                if what == "regular-file" {
+                    std::fs::write(&path, b"not a directory").unwrap();
+                }
+                verif::stop_recording();
+                verif::set_fault_plan(None);
+                let opened = open_log(&path, &script.policy);
+                let created = what == "missing" && path.exists();
+                let (out, errkind) = match opened {
+                    Ok(_) => ("ok".to_string(), String::new()),
+                    Err(err) if err.starts_with("io:") && !created => ("err".to_string(), "io".to_string()),
+                    Err(err) if err == "panic" => ("panic".to_string(), String::new()),
+                    Err(_) => ("err".to_string(), if created { "created".to_string() } else { String::new() }),
+                };
+                output_in.add("fault_cases", 1);
+                output_in.add("fault_natural", 1);
+                output_in.add("fault_struck", 1);
+                cases.push(json!({
+                    "ev": "fault", "site": "list", "k": 0, "forever": 1, "kind": format!("real-{what}"), "struck": 1,
+                    "out": out, "errkind": errkind, "queues": -1, "base": [0, 0, 0, 0], "files": 0, "image": what,
+                }));
+            }
+        }
         output_in.sample(json!({"script": script.name, "files": image.files.len(), "images": images.len(),
             "cases": cases.len(),
             "first": cases.first()}));
